@@ -8,7 +8,7 @@
    delegates (newest first); [dstate false] runs the protocol automaton of Spec.v over it. *)
 From Coq Require Import String List NArith Arith Bool.
 Import ListNotations.
-From TV Require Import C05.Model C05.Spec C05.SpecFacts C05.Proofs5 C05.Proofs6 C05.Proofs7 C05.Proofs8 C05.Witness.
+From TV Require Import C05.Model C05.Spec C05.SpecFacts C05.Proofs5 C05.Proofs6 C05.Proofs7 C05.Proofs8 C05.Proofs9 C05.Proofs10 C05.Proofs11 C05.Witness.
 
 (* (INV) Along every event list the delegate calls follow  headers data* (finish | on_connection_close)
    request after request: nothing before headers, nothing after the terminal, no second terminal,
@@ -69,19 +69,41 @@ Theorem C05_body_timeout_witness :
 Proof. exact witness_trace. Qed.
 Print Assumptions C05_body_timeout_witness.
 
-(* Shutdown, the part that is proved.  FULL STATEMENT WANTED (design): after EServerClose the request loop exits and
-   the connection set is empty, after finitely many handler continuations bounded by a measure of the buffered bytes.
-   PROVED HERE (an invariant of every reachable state, for every event list): a closed stream never leaves the
-   connection coroutine parked on a stream read or on _finish_future -- so after close_all_connections closed the
-   stream the only thing the coroutine can still be waiting for is a Future owned by the handler -- the wait on
-   _finish_future always has the stream close callback installed, and an exited loop has run HTTPServer.on_close.
-   NOT PROVED: that the stream stays closed through [run] (monotonicity), hence the corollary about the state right
-   after EServerClose, and the bound on the number of handler continuations (see NOTES.md). *)
-Theorem C05_shutdown_never_waits_on_closed_stream_partial :
+(* Shutdown invariant (every reachable state, every event list): a closed stream never leaves the connection
+   coroutine parked on a stream read or on _finish_future; the wait on _finish_future always has the stream
+   close callback installed; an exited loop has run HTTPServer.on_close. *)
+Theorem C05_shutdown_never_waits_on_closed_stream :
   forall parse c es,
     let s := run_events parse c es in
     (closed (sm s) = true -> match pc s with PWaitHdr | PWaitBody _ | PWaitFin => False | _ => True end) /\
     (pc s = PWaitFin -> scb (sm s) = true) /\
     (pc s = PExited -> exited s = true).
 Proof. intros parse c es. exact (run_events_K parse c es). Qed.
-Print Assumptions C05_shutdown_never_waits_on_closed_stream_partial.
+Print Assumptions C05_shutdown_never_waits_on_closed_stream.
+
+(* close_all_connections: after ANY history followed by EServerClose, either the request loop has exited
+   (HTTPServer.on_close ran: the connection left _connections and the shutdown coroutine completes), or the stream
+   is closed and the coroutine is parked on a Future owned by the handler (headers_received / data_received) --
+   never on a read and never on _finish_future.  (Third disjunct: the model itself gave up.)
+   STILL PARTIAL w.r.t. the design: no bound is proved on how many handler continuations are then needed for the
+   loop to exit (the design's "each step strictly decreases a measure"); hence the name. *)
+Theorem C05_server_close_leaves_only_handler_waits_partial :
+  forall parse c es,
+    let s := run_events parse c (es ++ [EServerClose]) in
+    (pc s = PExited /\ exited s = true) \/
+    (closed (sm s) = true /\ (pc s = PWaitH \/ exists r, pc s = PWaitD r)) \/
+    (exists w, pc s = PErr w).
+Proof. intros parse c es. exact (after_server_close parse c es). Qed.
+Print Assumptions C05_server_close_leaves_only_handler_waits_partial.
+
+(* The stream under the reader is a faithful FIFO (every event list): the bytes returned by completed reads
+   ([eaten], in order), then the read buffer, then what is still queued in the transport, are exactly the bytes
+   the peer delivered ([wire]); the body offset recorded when the header block was read lies inside [eaten].
+   This is the stream half of "the data chunks concatenate to a prefix of the sent body"; the framing half
+   (data_received gets exactly the payload positions of those bytes) is NOT proved -- see NOTES.md. *)
+Theorem C05_stream_is_fifo_partial :
+  forall parse c es,
+    let m := sm (run_events parse c es) in
+    wire m = eaten m ++ buf m ++ qcat (q m) /\ mark m <= length (eaten m).
+Proof. intros parse c es. exact (run_events_WI parse c es). Qed.
+Print Assumptions C05_stream_is_fifo_partial.
